@@ -7,6 +7,7 @@ set -u
 WT=${VERIF_SCRATCH:-/var/tmp}/benign_wt
 git -C /repo worktree remove --force $WT 2>/dev/null
 git -C /repo worktree add --detach -q $WT HEAD || exit 3
+cp /repo/Cargo.lock $WT/ 2>/dev/null   # untracked in the repository, needed offline
 props=("$@"); [ ${#props[@]} -eq 0 ] && props=($(ls /verif/benign/*.patch | xargs -n1 basename | sed 's/.patch//'))
 fail=0
 for p in "${props[@]}"; do
